@@ -126,7 +126,11 @@ func genEngine(g *gen, n int, tier string, w *bufio.Writer) {
 	for c := 0; c < n; c++ {
 		mem := g.pick(64, 128, 200, 512, 1024, 4096, 1<<20)
 		fmt.Fprintf(w, "# case %d\n", c)
-		fmt.Fprintf(w, "open mem=%d\n", mem)
+		if g.chance(1, 8) {
+			fmt.Fprintf(w, "open mem=%d walmax=1\n", mem)
+		} else {
+			fmt.Fprintf(w, "open mem=%d\n", mem)
+		}
 		genEngineOps(g, w, mem, 10+g.intn(50))
 		fmt.Fprintln(w, "dump")
 		fmt.Fprintln(w, "scan - -")
@@ -141,9 +145,10 @@ func genEngine(g *gen, n int, tier string, w *bufio.Writer) {
 // ---------- executor ----------
 
 type engRun struct {
-	r   *runner
-	dir string
-	e   *engine.EngineFacade
+	r      *runner
+	dir    string
+	e      *engine.EngineFacade
+	walmax int64 // cfg.WALMaxSize for the next openDir with a new configuration (0 = default)
 }
 
 func (x *engRun) stat(name string) uint64 {
@@ -188,6 +193,9 @@ func (x *engRun) openDir(mem int) error {
 		cfg.MaxMemTableAge = 0
 		cfg.CompactionInterval = 3600
 		cfg.WALSyncMode = config.SyncNone
+		if x.walmax > 0 {
+			cfg.WALMaxSize = x.walmax
+		}
 		if err := cfg.SaveManifest(x.dir); err != nil {
 			return err
 		}
@@ -292,6 +300,10 @@ func (x *engRun) step(ws []string) (out string) {
 		x.r.dropTemp()
 		x.dir = x.r.tempDir()
 		mem, _ := strconv.Atoi(strings.TrimPrefix(ws[1], "mem="))
+		x.walmax = 0
+		if len(ws) > 2 && ws[2] == "walmax=1" {
+			x.walmax = 1 // a log file that holds anything is too large to reuse: every open starts a new one
+		}
 		if err := x.openDir(mem); err != nil {
 			return "err " + errTok(err)
 		}
